@@ -475,6 +475,9 @@ def run_check(args, seed, t0):
         first_seed = seed * 1000003 if not cfg.get("exhaustive") else seed * runs * 1009
         extra_env = dict(tcfg.get("env", {}))
         known = load_known()
+        avoid = sorted({t for k in known if k.get("property") == prop and k.get("status") == "known" for t in k.get("avoid", [])})
+        if avoid:
+            extra_env["VERIF_AVOID"] = ",".join(avoid)
         stop_at = 1000000 if any(k.get("property") == prop and k.get("status") == "known" for k in known) else 1
         results, crashed = run_workers(exe, prop, tier, per, first_seed, nworkers, extra_env, workdir,
                                        wall=args.wall or tcfg.get("wall"), stop_at=stop_at)
